@@ -417,6 +417,9 @@ func removeFromCollection(col ItemCollection, items ...Item) ItemCollection {
 	for _, ob := range col {
 		found := false
 		for _, it := range items {
+			if IsNil(ob) || IsNil(it) {
+				continue
+			}
 			if ob.GetID().Equals(it.GetID(), false) {
 				found = true
 				break
@@ -451,7 +454,7 @@ func removeFromAudience(a *Activity, items ...Item) error {
 // Recipients performs recipient de-duplication on the Activity's To, Bto, CC and BCC properties
 func (a *Activity) Recipients() ItemCollection {
 	var alwaysRemove ItemCollection
-	if a.GetType() == BlockType && a.Object != nil {
+	if a.GetType() == BlockType && !IsNil(a.Object) {
 		alwaysRemove = append(alwaysRemove, a.Object)
 	}
 	if len(alwaysRemove) > 0 {
